@@ -148,7 +148,8 @@ def as_minimization_problem():
                 sig='pub fn as_minimization_problem(&mut self)',
                 header='''pub fn as_minimization_problem(&mut self)
     // observation (outside the property's valid instances): a present objective whose oneof is unset makes the operator code panic (`expect("Empty Function")`)
-    requires old(self).objective is Some ==> old(self).objective->Some_0.function is Some,
+    //   ... and so does a Quadratic objective whose COO arrays differ in length (precondition under which C02 proves Neg for Function)
+    requires old(self).objective is Some ==> old(self).objective->Some_0.function is Some && fn_coo_ok(old(self).objective->Some_0),
     ensures
         // a minimisation problem is left untouched (idempotence)
         old(self).sense == 1 ==> *final(self) == *old(self),
@@ -165,7 +166,10 @@ PEN_REQ = '''requires
         // observations (outside the property's valid instances): id arithmetic must not overflow; operator code panics on unset oneofs
         forall|i: int| 0 <= i < self.decision_variables.len() ==> (#[trigger] self.decision_variables[i]).id + self.constraints.len() + 1 < u64::MAX,
         self.objective is Some ==> self.objective->Some_0.function is Some,
-        forall|i: int| 0 <= i < self.constraints.len() ==> ((#[trigger] self.constraints[i]).function is Some ==> self.constraints[i].function->Some_0.function is Some),'''
+        forall|i: int| 0 <= i < self.constraints.len() ==> ((#[trigger] self.constraints[i]).function is Some ==> self.constraints[i].function->Some_0.function is Some),
+        // ... and on Quadratic operands whose COO arrays differ in length (precondition under which C02 proves the operator contracts)
+        self.objective is Some ==> fn_coo_ok(self.objective->Some_0),
+        forall|i: int| 0 <= i < self.constraints.len() ==> ((#[trigger] self.constraints[i]).function is Some ==> fn_coo_ok(self.constraints[i].function->Some_0)),'''
 PEN_COMMON = '''            &&& p.constraints.len() == 0
             // every constraint of the input is kept as a removed constraint: those already removed first, then the active ones, unchanged
             &&& p.removed_constraints.len() == nr + nc
@@ -203,8 +207,8 @@ def penalty_method():
                             body_proof=' proof { assert(*__e == __h1[it_1.index@ as int]); }',
                             inv='''invariant
                 __h1.len() == cs0.len(), forall|j: int| 0 <= j < __h1.len() ==> (#[trigger] __h1[j]).0 == j && __h1[j].1 == cs0[j],
-                forall|j: int| 0 <= j < cs0.len() ==> ((#[trigger] cs0[j]).function is Some ==> cs0[j].function->Some_0.function is Some),
-                id_base + cs0.len() < u64::MAX, f0.function is Some,
+                forall|j: int| 0 <= j < cs0.len() ==> ((#[trigger] cs0[j]).function is Some ==> cs0[j].function->Some_0.function is Some && fn_coo_ok(cs0[j].function->Some_0)),
+                id_base + cs0.len() < u64::MAX, f0.function is Some, fn_coo_ok(objective),
                 parameters.len() == it_1.index@, removed_constraints.len() == nr0 + it_1.index@,
                 forall|j: int| 0 <= j < nr0 ==> #[trigger] removed_constraints[j] == rs0[j],
                 forall|j: int| 0 <= j < it_1.index@ ==> (#[trigger] removed_constraints[nr0 + j]).constraint == Some(cs0[j]),
@@ -255,7 +259,8 @@ def uniform_penalty_method():
                             body_proof=' proof { assert(*__e == __h1[it_1.index@ as int]); }',
                             inv='''invariant
                 __h1@ == cs0,
-                forall|j: int| 0 <= j < cs0.len() ==> ((#[trigger] cs0[j]).function is Some ==> cs0[j].function->Some_0.function is Some),
+                forall|j: int| 0 <= j < cs0.len() ==> ((#[trigger] cs0[j]).function is Some ==> cs0[j].function->Some_0.function is Some && fn_coo_ok(cs0[j].function->Some_0)),
+                fn_coo_ok(quad_sum),
                 removed_constraints.len() == nr0 + it_1.index@,
                 forall|j: int| 0 <= j < nr0 ==> #[trigger] removed_constraints[j] == rs0[j],
                 forall|j: int| 0 <= j < it_1.index@ ==> (#[trigger] removed_constraints[nr0 + j]).constraint == Some(cs0[j]),
@@ -283,22 +288,25 @@ impl Function {
     #[verifier::external_body] pub fn used_decision_variable_ids(&self) -> (r: BTreeSet<u64>) ensures r@ == fn_ids(*self) { unimplemented!() }
     // Function::content_factor (C16): a positive finite multiplier that makes every coefficient integral, hence a*f integer-valued on integer points
     #[verifier::external_body] pub fn content_factor(&self) -> (r: Result<F64, VErr>)
+        requires fn_coo_ok(*self)      // the term iterator asserts equal COO lengths
         ensures r is Ok ==> r->Ok_0@ is Fin && r->Ok_0@->Fin_0 > 0real
             && forall|m: Map<u64, F64>| #![trigger fn_val(*self, m)] int_state(m, fn_ids(*self)) ==> is_intr(r->Ok_0@->Fin_0 * fn_val(*self, m))
     { unimplemented!() }
     // Function::evaluate_bound (C16): interval enclosure over the box
     #[verifier::external_body] pub fn evaluate_bound(&self, bounds: &Bounds) -> (r: Bound)
-        requires bounds_wf(bounds@)
+        requires bounds_wf(bounds@), small_degree(*self), fn_coo_ok(*self)      // as proved in C16 (finiteness is the antecedent below)
         ensures r.wf(), fn_fin(*self) ==> forall|m: Map<u64, F64>| #![trigger fn_val(*self, m)] in_box(m, bounds@, fn_ids(*self)) ==> contains(r, fn_val(*self, m))
     { unimplemented!() }
 }
 // f64 * Function (impl_mul_inverse!(f64, Function)) and Function + Linear (impl_add_from!(Function, Linear)): decided in C02
-impl MulSpecImpl<Function> for F64 { open spec fn obeys_mul_spec() -> bool { false } open spec fn mul_req(self, rhs: Function) -> bool { rhs.function is Some } open spec fn mul_spec(self, rhs: Function) -> Function { arbitrary() } }
+impl MulSpecImpl<Function> for F64 { open spec fn obeys_mul_spec() -> bool { false } open spec fn mul_req(self, rhs: Function) -> bool { rhs.function is Some && fn_coo_ok(rhs) } open spec fn mul_spec(self, rhs: Function) -> Function { arbitrary() } }
 impl core::ops::Mul<Function> for F64 { type Output = Function;
-    #[verifier::external_body] fn mul(self, rhs: Function) -> (r: Function) ensures r == fn_scale(self, rhs), is_scaled(r, self, rhs) { unimplemented!() } }
-impl AddSpecImpl<Linear> for Function { open spec fn obeys_add_spec() -> bool { false } open spec fn add_req(self, rhs: Linear) -> bool { self.function is Some } open spec fn add_spec(self, rhs: Linear) -> Function { arbitrary() } }
+    #[verifier::external_body] fn mul(self, rhs: Function) -> (r: Function) ensures r == fn_scale(self, rhs), is_scaled(r, self, rhs), fn_coo_ok(r),
+        small_degree(rhs) ==> small_degree(r),    // ASSUMED and not part of the C02 contract: a scalar multiple keeps (or empties) the monomials' id lists
+    { unimplemented!() } }
+impl AddSpecImpl<Linear> for Function { open spec fn obeys_add_spec() -> bool { false } open spec fn add_req(self, rhs: Linear) -> bool { self.function is Some && fn_coo_ok(self) } open spec fn add_spec(self, rhs: Linear) -> Function { arbitrary() } }
 impl core::ops::Add<Linear> for Function { type Output = Function;
-    #[verifier::external_body] fn add(self, rhs: Linear) -> (r: Function) ensures r == fn_add_linear(self, rhs), is_sum_linear(r, self, rhs) { unimplemented!() } }
+    #[verifier::external_body] fn add(self, rhs: Linear) -> (r: Function) ensures r == fn_add_linear(self, rhs), is_sum_linear(r, self, rhs), fn_coo_ok(r) { unimplemented!() } }
 impl Bound {
     // Bound::as_integer_bound (C16) - ASSUMPTION A3: the call returns, i.e. the interval contains an integer (it panics otherwise)
     #[verifier::external_body] pub fn as_integer_bound(&self) -> (r: Bound)
@@ -328,7 +336,10 @@ def v1bound_from_bound():
 SLACK_REQ = '''requires
         // observations outside the property: no id overflow; operator code panics on an unset oneof
         forall|i: int| 0 <= i < old(self).decision_variables.len() ==> (#[trigger] old(self).decision_variables[i]).id < u64::MAX - 1,
-        forall|i: int| 0 <= i < old(self).constraints.len() ==> ((#[trigger] old(self).constraints[i]).function is Some ==> old(self).constraints[i].function->Some_0.function is Some),'''
+        forall|i: int| 0 <= i < old(self).constraints.len() ==> ((#[trigger] old(self).constraints[i]).function is Some ==> old(self).constraints[i].function->Some_0.function is Some),
+        // ... the preconditions under which C16 / C02 prove the callee contracts: Quadratic COO arrays of equal lengths (the term iterator and the operators assert it),
+        // and monomials of degree < 256 (evaluate_bound casts multiplicities to u8)
+        forall|i: int| 0 <= i < old(self).constraints.len() ==> ((#[trigger] old(self).constraints[i]).function is Some ==> fn_coo_ok(old(self).constraints[i].function->Some_0) && small_degree(old(self).constraints[i].function->Some_0)),'''
 SLACK_REJECT = '''        // rejected WITHOUT modifying the instance
         r is Err ==> same_inst(*final(self), *old(self)),
         // unknown id, not an inequality (equality code 2 = LessThanOrEqualToZero), no function, or a used variable that is undefined or not integer/binary
